@@ -85,7 +85,9 @@ def gen_config(rng: Prng) -> dict:
     elif taper == "equal":
         r2 = r1
     elif taper == "band":
-        r2 = r1 + rng.choice([-1e-7, 1e-7, -5e-7, -9e-7, 5e-8])
+        # radii that differ only in their last bits (0.1 + 0.2 against 0.3), or by less than the library's 1e-6 band
+        r2 = rng.choice([r1 + 1e-7, r1 - 1e-7, r1 - 5e-7, r1 - 9e-7, r1 + 5e-8, math.nextafter(r1, math.inf),
+                         math.nextafter(r1, 0.0), r1 * (1 + 2.0 ** -51), r1 * (1 - 2.0 ** -50)])
     elif taper == "larger":
         r2 = r1 * rng.choice([1.001, 1.5, 3.0, 10.0, rng.uniform(1.01, 5)])
     else:
@@ -125,6 +127,12 @@ def gen_config(rng: Prng) -> dict:
             "axis": gen_axis(rng), "dir2": gen_axis(rng), "scribble": rng.chance(0.3),
             "offset": rng.choice([[0.0, 0.0, 0.0], [0.0, 0.0, 0.0], [8.0, -16.0, 32.0]]) if rng.chance(0.5)
             else [round(rng.uniform(-500, 500), 3) for _ in range(3)]}
+
+
+def far_offset(rng: Prng) -> list:
+    """A solid millions of units from the origin (float64 coordinates): the volume does not depend on where it is."""
+    s = rng.choice([1e5, 3e6, 1.2e7, 2e7])
+    return [round(rng.uniform(-1, 1) * s, 1) for _ in range(3)]
 
 
 INT_AXES = [[1.0, 0.0, 0.0], [0.0, -1.0, 0.0], [0.0, 0.0, 1.0], [0.6, 0.8, 0.0], [0.0, -0.6, 0.8], [-0.8, 0.0, 0.6]]
@@ -210,6 +218,9 @@ def generate(rng: Prng, tier: str) -> dict:
     hist = rng.stream("history")
     cfg = gen_int_config(w) if hist.chance(0.12) else gen_config(w)
     cfg["shared_order"] = hist.choice(["far_first", "near_first"])
+    if not cfg.get("ints") and hist.chance(0.08) and min(cfg["h"], cfg["r1"], cfg["r2"], cfg["rb"]) >= 0.05:
+        cfg["offset"] = far_offset(hist)
+        cfg["far"] = True
     return {"prop": PROP, "cfg": cfg, "schedules": scheds, "followups": gen_followups(hist, cfg),
             "config": "faulting" if any(s["kind"] != "seed" for s in scheds) else "fault_free"}
 
@@ -353,11 +364,34 @@ def tol_for(cfg: dict, key: str) -> float:
     return 1e-4 if loose else 1e-6
 
 
+def effective(cfg: dict) -> dict:
+    """The configuration the constructors actually receive: far from the origin the end points c1 + h*axis are
+    rounded to float64, so the height and centre distance of the solid handed over differ from the nominal ones
+    by up to |c| * 2**-52 - the reference must describe that solid."""
+    if not cfg.get("far"):
+        return cfg
+    c1 = np.array(cfg["offset"], dtype=np.float64)
+    c2 = c1 + cfg["h"] * np.array(cfg["axis"])
+    d2 = np.array(cfg["dir2"], dtype=np.float64)
+    cb = c1 + cfg["d"] * d2 / np.linalg.norm(d2)
+    return dict(cfg, h=float(np.linalg.norm(c2 - c1)), d=float(np.linalg.norm(cb - c1)))
+
+
+def far_slack(cfg: dict) -> float:
+    """Cancellation allowance for solids far from the origin: float64 carries |c| * 2**-52 absolute, i.e. that much
+    relative to the smallest length of the solid; a factor 100 for the handful of operations in between."""
+    if not cfg.get("far"):
+        return 0.0
+    c = max(abs(v) for v in cfg["offset"]) + cfg["h"] + cfg["d"]
+    return 100 * 2.0 ** -52 * c / min(cfg["h"], cfg["r1"], cfg["r2"], cfg["rb"])
+
+
 def judge(cfg: dict, ref: dict, scale: float, got: dict, where: str):
+    slack = far_slack(cfg)
     for key, val in sorted(got.items()):
         rkey = key.replace("_rev", "").replace("_flip", "").replace("_reused", "").replace("_shared", "")
         exp = ref[rkey]
-        tol = tol_for(cfg, key)
+        tol = tol_for(cfg, key) + slack
         if not (abs(val - exp) <= tol * max(abs(exp), 1e-6 * scale) + 1e-12):
             return {"tag": "wrong_volume", "op": rkey,
                     "detail": f"{key} = {val!r}, true volume {exp!r} (rel err {abs(val - exp) / max(abs(exp), 1e-300):.3g}) "
@@ -370,7 +404,7 @@ def execute(program: dict) -> dict:
     violation = None
     states = []
     steps = 0
-    ref = reference(cfg)
+    ref = reference(effective(cfg))
     scale = max(ref["sphere"], ref["frustum"], 1e-300)
     with World() as world:
         results = []
@@ -401,7 +435,7 @@ def execute(program: dict) -> dict:
                 for kind, got in results[1:]:
                     for key in first:
                         a, b = first[key], got[key]
-                        if abs(a - b) > 1e-9 * max(abs(a), abs(b), 1e-6 * scale):
+                        if abs(a - b) > (1e-9 + far_slack(cfg)) * max(abs(a), abs(b), 1e-6 * scale):
                             violation = {"tag": "schedule_dependence", "op": key.replace("_rev", "").replace("_flip", "").replace("_reused", "").replace("_shared", ""),
                                          "detail": f"{key}: {a!r} under `seed` but {b!r} under `{kind}`"}
                             break
@@ -413,7 +447,7 @@ def execute(program: dict) -> dict:
                     break
                 steps += 1
                 cfg2 = dict(cfg, **f)
-                ref2 = reference(cfg2)
+                ref2 = reference(effective(cfg2))
                 scale2 = max(ref2["sphere"], ref2["frustum"], 1e-300)
                 install_schedule(world, {"kind": "seed", "seed": 12345 + fi, "repeat": 1}, cfg2["axis"])
                 try:
